@@ -76,6 +76,17 @@ def g_outer(p_seed, p_other):
             return m_k, m_k, m_k
     return n_inner, n_lam, C_holder, p_seed, p_other
 ''',
+    'names bound nowhere that look like generated names': '''
+def g_scale(p_values):
+    l_result = []
+    for l_value in p_values:
+        l_result.append(l_value * A + B)
+    return l_result, l_result, l_result, l_value, l_value
+def g_offset(p_points):
+    l_moved = [l_point + C + _A for l_point in p_points]
+    return l_moved, l_moved, D, a, b
+g_total = g_scale([1]) + g_offset([2]) + g_scale([3])
+''',
     'builtins used often (aliased at module level), a literal __all__': '''
 __all__ = ['g_api', 'g_other_api']
 def g_api(p_items):
@@ -185,6 +196,29 @@ def _scope_of_names(tree):
             seen[k] = seen.get(k, 0) + 1
             rec(c, path + ('%s#%d' % (k, seen[k]),))
     rec(top, ())
+    return out
+
+
+def _tables_by_path(source, text):
+    """scope path in the original (the numbering _walk_pairs uses) -> symbol table of the corresponding scope of the output. The two programs
+    have the same structure, so their scope trees are walked in parallel (the output may have renamed the functions and classes)."""
+    def top_of(t):
+        ref = ast.fix_missing_locations(_ToGen().visit(ast.parse(t)))
+        return symtable.symtable(ast.unparse(ref), 'probe', 'exec')
+    a, b = top_of(source), top_of(text)
+    out = {}
+
+    def rec(ta, tb, path):
+        out[path] = tb
+        seen = {}
+        ca, cb = ta.get_children(), tb.get_children()
+        if len(ca) != len(cb):
+            return
+        for x, y in zip(ca, cb):
+            k = x.get_name()
+            seen[k] = seen.get(k, 0) + 1
+            rec(x, y, path + ('%s#%d' % (k, seen[k]),))
+    rec(a, b, ())
     return out
 
 
@@ -451,6 +485,37 @@ def judge(source, text, rename_globals=False, preserve_locals=(), preserve_globa
             problems.append('%s is in preserve_globals but is renamed to %s' % (x, y))
         elif x.startswith('__') and x.endswith('__'):
             problems.append('the system name %s is renamed to %s' % (x, y))
+    # no free, global or builtin reference is captured: an occurrence of a name the original binds nowhere must still resolve, in the output,
+    # to the module's globals / builtins - not to a binding of a function around it, nor to a name the output binds at module level
+    try:
+        tables = _tables_by_path(source, text)
+    except SyntaxError:
+        tables = {}
+    top_table = tables.get(())
+    for (x, y, path, role) in pairs:
+        if scope_of.get(x) is not None or not role.startswith('name:') or top_table is None:
+            continue
+        if aliases.get(y) == x:
+            continue       # the builtin re-bound at module level under a new name
+        t = tables.get(path)
+        if t is None:
+            continue
+        try:
+            sym = t.lookup(y)
+        except KeyError:
+            continue
+        if t is not top_table and (sym.is_local() or sym.is_free()) and not sym.is_global():
+            problems.append('the reference to %s in %s (bound nowhere in the module: a builtin or a name supplied from outside) now resolves to a local binding of %s' %
+                            (x, '/'.join(path), y))
+            break
+        try:
+            tsym = top_table.lookup(y)
+            bound_top = tsym.is_assigned() or tsym.is_imported()
+        except KeyError:
+            bound_top = False
+        if bound_top:
+            problems.append('the reference to %s in %s (bound nowhere in the module) now resolves to the module-level binding %s' % (x, '/'.join(path) or 'the module', y))
+            break
     # keyword-callable parameters keep their spelling in the signature
     for (x, y, path, role) in pairs:
         if role in ('parameter:args', 'parameter:kwonlyargs', 'parameter:lambda') and y != x:
